@@ -98,9 +98,44 @@ def run_one(path, tests=False, props=None):
     return res
 
 
+def run_seed(patch, props):
+    """Apply an arbitrary patch (git diff format) to a scratch copy and run the given checks."""
+    d = scratch_copy()
+    try:
+        p = subprocess.run(["git", "apply", "--unsafe-paths", "--directory=" + d, os.path.abspath(patch)], cwd="/", stdout=subprocess.PIPE, stderr=subprocess.STDOUT, text=True)
+        if p.returncode != 0:
+            p = subprocess.run(["patch", "-p1", "-s", "-i", os.path.abspath(patch)], cwd=d, stdout=subprocess.PIPE, stderr=subprocess.STDOUT, text=True)
+            if p.returncode != 0:
+                print("patch does not apply:", p.stdout[-300:])
+                return {}
+        out = {}
+        for q in props:
+            c = subprocess.run([sys.executable, os.path.join(VERIF, "check.py"), q, "--src", d, "--json", "--no-evidence"],
+                               stdout=subprocess.PIPE, stderr=subprocess.STDOUT, text=True)
+            keys = []
+            for line in c.stdout.splitlines():
+                if line.startswith("[{") or line == "[]":
+                    keys = [o["key"] + ("" if o.get("reason") == "rule-breach" else " [%s]" % o.get("reason")) for o in json.loads(line)]
+            if c.returncode not in (0, 1):
+                keys.append("CHECKER-ERROR rc=%d %s" % (c.returncode, c.stdout[-400:]))
+            out[q] = keys
+        return out
+    finally:
+        shutil.rmtree(d, ignore_errors=True)
+
+
 def main():
     if len(sys.argv) > 1 and sys.argv[1] == "make":
         return make()
+    if len(sys.argv) > 1 and sys.argv[1] == "seed":
+        from rules import registry
+        props = sys.argv[3:] or sorted(registry.QUICK)
+        r = run_seed(sys.argv[2], props)
+        for q, keys in r.items():
+            if keys:
+                print(q, "FIRES", keys[:6])
+        print("silent:", [q for q, k in r.items() if not k])
+        return
     args = [a for a in sys.argv[2:] if not a.startswith("--")]
     tests = "--tests" in sys.argv
     only = None
